@@ -58,6 +58,16 @@ type CaseSpec struct {
 	Prim   []NodeSpec  `json:"prim"`
 	Fb     []NodeSpec  `json:"fb"`
 	Cancel *CancelSpec `json:"cancel,omitempty"`
+	Scoped *ScopeSpec  `json:"scoped,omitempty"`
+}
+
+// ScopeSpec: the configured clients are lazy wrappers (as NewMultiHTTP builds them) and the call is
+// made through multi.ClientForAddress(Addr).
+type ScopeSpec struct {
+	InitP []bool `json:"init_p"` // the primary's underlying client exists from the start
+	InitF []bool `json:"init_f"`
+	Warm  string `json:"warm,omitempty"` // "" | Plain | Submit: a call made through the multi client before scoping
+	Addr  string `json:"addr"`           // "" | P<i> | F<j> | unknown
 }
 
 // Case is a script together with what was observed.
@@ -68,6 +78,10 @@ type Case struct {
 	Time       int64    `json:"time"`    // observed instant of return, -1 = did not return
 	SP         []string `json:"sp"`      // observed status of the primaries
 	SF         []string `json:"sf"`      // observed status of the fallbacks
+	ObsInitP   []bool   `json:"obs_init_p,omitempty"` // scoped: which lazy clients existed when ClientForAddress was called
+	ObsInitF   []bool   `json:"obs_init_f,omitempty"`
+	WarmRes    string   `json:"warm_res,omitempty"`
+	SCoq       string   `json:"scoq,omitempty"` // scoped: the label as a Gallina term of type Multi.scase
 	Bodies     []string `json:"bodies"`  // Proxy style, primaries then fallbacks: "" not read | ok | bad:<what the node read>
 	Problems   []string `json:"problems,omitempty"`
 	AfterBlock string   `json:"after_block,omitempty"` // what a blocked call returned once the harness cancelled it
@@ -345,6 +359,21 @@ func runCase(t *testing.T, spec CaseSpec) Case {
 		prim, primCl := mk("P", spec.Prim)
 		fb, fbCl := mk("F", spec.Fb)
 		all := append(append([]*scripted{}, prim...), fb...)
+		if sc := spec.Scoped; sc != nil {
+			wrap := func(ns []*scripted, init []bool) []eth2wrap.Client {
+				var cls []eth2wrap.Client
+				for i, n := range ns {
+					if i < len(init) && init[i] {
+						cls = append(cls, eth2wrap.NewLazyForT(n))
+					} else {
+						cls = append(cls, eth2wrap.NewLazyUninitForT(func(context.Context) (eth2wrap.Client, error) { return n, nil }))
+					}
+				}
+
+				return cls
+			}
+			primCl, fbCl = wrap(prim, sc.InitP), wrap(fb, sc.InitF)
+		}
 
 		var cl eth2wrap.Client
 		if len(primCl) == 0 {
@@ -359,6 +388,40 @@ func runCase(t *testing.T, spec CaseSpec) Case {
 
 		root, cancelRoot := context.WithCancel(log.WithLogger(context.Background(), zap.NewNop()))
 		defer cancelRoot()
+		if sc := spec.Scoped; sc != nil {
+			if sc.Warm != "" { // earlier operation through the multi client itself; a hung node is given up after a day
+				wctx, wc := context.WithTimeout(root, 24*time.Hour)
+				var werr error
+				if sc.Warm == "Submit" {
+					werr = cl.SubmitAttestations(wctx, &eth2api.SubmitAttestationsOpts{})
+				} else {
+					_, werr = cl.SlotsPerEpoch(wctx)
+				}
+				wc()
+				synctest.Wait()
+				c.WarmRes = fmt.Sprint(werr)
+				start = time.Now()
+				for _, n := range all {
+					n.mu.Lock()
+					n.called, n.stat, n.body, n.start = 0, "NotCalled", "", start
+					n.mu.Unlock()
+				}
+			}
+			for _, l := range primCl {
+				c.ObsInitP = append(c.ObsInitP, l.Address() != "")
+			}
+			for _, l := range fbCl {
+				c.ObsInitF = append(c.ObsInitF, l.Address() != "")
+			}
+			addr := sc.Addr
+			switch {
+			case addr == "unknown":
+				addr = "http://nowhere:5052"
+			case addr != "":
+				addr = "http://" + addr
+			}
+			cl = cl.ClientForAddress(addr)
+		}
 		ctx := root
 		if spec.Cancel != nil {
 			if spec.Cancel.Deadline {
@@ -490,6 +553,26 @@ func runCase(t *testing.T, spec CaseSpec) Case {
 	stats := func(ss []string) string { return "[" + strings.Join(ss, "; ") + "]" }
 	c.Coq = fmt.Sprintf("mkc %s %s %s %s %s %s %s %s %s %s", spec.Style, nodes(spec.Prim), nodes(spec.Fb),
 		natList(scriptedOrder(spec.Prim)), natList(scriptedOrder(spec.Fb)), tc, c.Res, tm, stats(c.SP), stats(c.SF))
+	if sc := spec.Scoped; sc != nil {
+		a := "ANone"
+		switch {
+		case sc.Addr == "unknown":
+			a = "AUnknown"
+		case strings.HasPrefix(sc.Addr, "P"):
+			a = "(AP " + sc.Addr[1:] + ")"
+		case strings.HasPrefix(sc.Addr, "F"):
+			a = "(AF " + sc.Addr[1:] + ")"
+		}
+		bl := func(bs []bool) string {
+			ss := make([]string, len(bs))
+			for i, b := range bs {
+				ss[i] = fmt.Sprint(b)
+			}
+
+			return "[" + strings.Join(ss, "; ") + "]"
+		}
+		c.SCoq = fmt.Sprintf("mks %s %s %s (%s)", a, bl(c.ObsInitP), bl(c.ObsInitF), c.Coq)
+	}
 	c.Nontrivial = len(spec.Prim) >= 2 && (strings.HasPrefix(c.Res, "(ROk (F") || strings.HasPrefix(c.Res, "(RErr") ||
 		(strings.HasPrefix(c.Res, "(ROk (P") && anyOut(spec.Prim, "err", "hang")))
 
@@ -544,7 +627,7 @@ func render(c *Case, cl eth2wrap.Client, all []*scripted, err error, ans uint64,
 			if soft {
 				return fmt.Sprintf("(RSoft %s %d)", nodeRef(winner.tag), ans)
 			}
-			if a := strings.TrimPrefix(cl.Address(), "http://"); c.Style != "Proxy" && a != winner.tag {
+			if a := strings.TrimPrefix(cl.Address(), "http://"); c.Style != "Proxy" && (c.Scoped == nil || c.Scoped.Warm == "") && a != winner.tag {
 				c.Problems = append(c.Problems, "selector names "+a+" but the answer is "+winner.tag+"'s")
 			}
 
@@ -914,6 +997,68 @@ func (g *gen) deaf(systematic bool) {
 	}
 }
 
+// scoped: multi clients over lazy wrappers, called through ClientForAddress with "", every configured
+// address and an unknown one; every combination of already created / not yet created clients, fresh
+// and after an earlier call through the multi client.
+func (g *gen) scoped(thorough bool) {
+	pa := []NodeSpec{{Out: "ok"}, {Out: "err", Class: "Gateway"}, {Out: "err", Class: "Other"}}
+	fa := []NodeSpec{{Out: "ok"}, {Out: "err", Class: "Gateway"}}
+	maxF := 1
+	if thorough {
+		pa = append(pa, NodeSpec{Out: "hang"})
+		maxF = 2
+	}
+	masks := func(n int) [][]bool {
+		var out [][]bool
+		for m := 0; m < 1<<n; m++ {
+			b := make([]bool, n)
+			for i := range b {
+				b[i] = m&(1<<i) != 0
+			}
+			out = append(out, b)
+		}
+
+		return out
+	}
+	for np := 1; np <= 2; np++ {
+		for _, pv := range vectors(pa, np) {
+			for _, po := range orders(pv) {
+				for nf := 0; nf <= maxF; nf++ {
+					for _, fv := range vectors(fa, nf) {
+						addrs := []string{"", "unknown"}
+						for i := range pv {
+							addrs = append(addrs, fmt.Sprintf("P%d", i))
+						}
+						for j := range fv {
+							addrs = append(addrs, fmt.Sprintf("F%d", j))
+						}
+						for _, addr := range addrs {
+							mk := func(st string, ip, iF []bool, warm string) {
+								g.add(CaseSpec{Kind: "scoped", Style: st,
+									Prim: g.place(st, "P", pv, po), Fb: g.place(st, "F", fv, orders(fv)[0]),
+									Scoped: &ScopeSpec{InitP: ip, InitF: iF, Warm: warm, Addr: addr}})
+							}
+							for _, ip := range masks(np) {
+								for _, iF := range masks(nf) {
+									mk("Plain", ip, iF, "")
+									if addr == "" || thorough {
+										mk("Submit", ip, iF, "")
+									}
+								}
+							}
+							// warm: the earlier call decides which clients exist
+							mk("Plain", make([]bool, np), make([]bool, nf), "Plain")
+							if thorough {
+								mk("Plain", make([]bool, np), make([]bool, nf), "Submit")
+							}
+						}
+					}
+				}
+			}
+		}
+	}
+}
+
 // classification: every constructed error as the failure of a single primary with one healthy
 // fallback; "consulted" is read off the fallback's status.
 type classRow struct {
@@ -970,6 +1115,12 @@ func TestGen(t *testing.T) {
 	ms := int64(time.Millisecond)
 	corpus := []CaseSpec{
 		{Style: "Plain", Prim: []NodeSpec{{Out: "hang"}, {Out: "ok", Delay: 5 * ms, Ans: 101}, {Out: "ok", Delay: 900 * ms, Ans: 102}}},
+		// fresh lazy clients, first primary down, second healthy, called through ClientForAddress("")
+		{Style: "Plain", Prim: []NodeSpec{{Out: "err", Class: "Other", Rep: 2, Delay: ms}, {Out: "ok", Delay: 2 * ms, Ans: 101}},
+			Scoped: &ScopeSpec{InitP: []bool{false, false}, Addr: ""}},
+		// warm client, healthy primary, a down fallback that was never needed, ClientForAddress("")
+		{Style: "Plain", Prim: []NodeSpec{{Out: "ok", Delay: ms, Ans: 100}}, Fb: []NodeSpec{{Out: "err", Class: "Other", Rep: 2, Delay: ms}},
+			Scoped: &ScopeSpec{InitP: []bool{false}, InitF: []bool{false}, Warm: "Plain", Addr: ""}},
 		{Style: "Plain", Prim: []NodeSpec{{Out: "err", Class: "Other", Delay: 1 * ms}, {Out: "err", Class: "Timeout", Delay: 2 * ms}}, Fb: []NodeSpec{{Out: "ok", Delay: ms, Ans: 200}}},
 		{Style: "Plain", Prim: []NodeSpec{{Out: "err", Class: "Other", Delay: 2 * ms}, {Out: "err", Class: "Timeout", Delay: 1 * ms}}, Fb: []NodeSpec{{Out: "ok", Delay: ms, Ans: 200}}},
 		{Style: "Submit", Prim: []NodeSpec{{Out: "err", Class: "Gateway", Rep: 1, Delay: 3 * ms}}, Fb: []NodeSpec{{Out: "hang"}, {Out: "ok", Delay: 4 * ms}}},
@@ -994,6 +1145,7 @@ func TestGen(t *testing.T) {
 
 	g.wide()
 	g.deaf(true)
+	g.scoped(hx.Thorough())
 
 	styles := []string{"Plain", "Submit", "Pred"}
 	if hx.Thorough() {
